@@ -11,3 +11,16 @@ claim('C07',
       'own operation, that // and %% come from one rounding family per level (flooring helpers), the operand-side, '
       'length-guard and error arms of the vectorisation wrappers, and the zero-divisor guard of exact division.',
       'finite decision tables from HIR patterns + MIR callee/provenance facts')
+claim('C06',
+      'Decides representation independence of the integer dispatch layer, not arithmetic exactness: sign/signum tables by '
+      'abstract interpretation over {neg,zero,pos}; same operation in both arms of every Small/Big match; checked_<op> fast '
+      'paths paired with the same trait on BigInt; crate-wide discipline on what may flow into an NInt::Small (no casts, no '
+      'unchecked/wrapping/checked_shl results); nobody outside nint.rs reads the representation; Eq/Ord/Hash ignore it; zero '
+      'divisors are tested before exact division; div_floor/mod_floor/gcd/lcm/sqrt/pow/shifts go through BigInt.',
+      'value-origin dataflow over MIR + sibling-arm agreement + abstract interpretation on the sign domain')
+claim('C08',
+      'Decides structural clauses, not the order laws themselves: no lossy conversion or int/float cast reachable from any '
+      'comparison entry point (call-graph closure), f64->BigInt only on floor(f) or under an integrality test, exhaustive '
+      'decision tables of the eight comparison operators, max/min bias and cmp_nint_f64, mirrored (Float,Int)/(Int,Float) arms, '
+      'incomparable => error, stable sort, infinities separated before partial exact conversions.',
+      'forbidden-callee reachability over the resolved call graph + finite decision tables from MIR')
